@@ -222,6 +222,9 @@ def operations(cls, tier, bounds=None):
         if not hold:
             ops.append(("between", lo, hi, True))
             ops.append(("between", lo, hi, False))
+            # the two flags given as a list instead of a tuple
+            ops.append(("between", lo, hi, ("list", False, True)))
+            ops.append(("between", lo, hi, ("list", True, False)))
     for sl in ((1, None, None), (None, -1, None), (None, None, 2), (1, 3, None), (None, None, -1), (0, 0, None)):
         ops.append(("slice", sl))
     ops.append(("mask", "alt"))
@@ -254,7 +257,10 @@ def apply_lib(cls, l, op):
     if k == "between":
         if len(op) == 6:
             return l.between(op[1], op[2], include_ends=op[3], include_head=op[4], include_tail=op[5])
-        return l.between(op[1], op[2], include_ends=op[3])
+        ends = op[3]
+        if isinstance(ends, tuple) and ends and ends[0] == "list":
+            ends = list(ends[1:])
+        return l.between(op[1], op[2], include_ends=ends)
     if k == "slice":
         return l[slice(*op[1])]
     if k == "mask":
@@ -299,6 +305,8 @@ def apply_twin(cls, rows, op):
         return [r for r in rows if (_key_before(r, head) <= op[1] if op[2] else _key_before(r, head) < op[1])], None
     if k == "between":
         ends = op[3]
+        if isinstance(ends, tuple) and ends and ends[0] == "list":
+            ends = tuple(ends[1:])
         if isinstance(ends, bool):
             ends = (ends, ends)
         head, tail = (op[4], op[5]) if len(op) == 6 else (True, False)
@@ -481,6 +489,12 @@ def step(cls, name, l, tw, op, hist, ctx):
         if adopted is None:
             return None
         tw2 = adopted
+    else:
+        # every transition is judged, also one whose result state was reached before by another operation
+        # (the state-level observers below run once per distinct state)
+        obs = lib_rows(l2, props)
+        if not ctx.check("op.rows", obs == tw2, site=dict(cls=name, op=opname), case=case, observed=obs[:8], expected=tw2[:8]):
+            return None
     return l2, tw2
 
 
